@@ -776,9 +776,38 @@ class Interp:
     def st_While(self, st, env, f):
         raise Unsupported("while loop")
 
+    def dict_building_loop(self, st, env, f):
+        """The idiom   d = {} ... for T in ITER: d[K] = V   (K, V do not mention d; d is an empty dict when the loop starts)
+        is the dict comprehension {K: V for T in ITER}; evaluated as such (later keys overwrite earlier ones, as in the loop)."""
+        if len(st.body) != 1 or not isinstance(st.body[0], ast.Assign) or len(st.body[0].targets) != 1:
+            return False
+        tg = st.body[0].targets[0]
+        if not (isinstance(tg, ast.Subscript) and isinstance(tg.value, ast.Name)):
+            return False
+        name = tg.value.id
+        mentions = lambda node: any(isinstance(x, ast.Name) and x.id == name for x in ast.walk(node))
+        if mentions(tg.slice) or mentions(st.body[0].value) or mentions(st.iter) or mentions(st.target):
+            return False
+        try:
+            cur = env.lookup(name)
+        except Exception:
+            return False
+        if not (isinstance(cur, dict) and len(cur) == 0):
+            return False
+        comp = ast.DictComp(key=tg.slice, value=st.body[0].value,
+                            generators=[ast.comprehension(target=st.target, iter=st.iter, ifs=[], is_async=0)])
+        ast.copy_location(comp, st)
+        ast.fix_missing_locations(comp)
+        val = self.ev(comp, env, f)
+        env.assign(name, val) if hasattr(env, "assign") else env.vars.__setitem__(name, val)
+        self.ctx.used_models.add("loop idiom: filling an empty dict key by key = the dict comprehension over the same iteration")
+        return True
+
     def st_For(self, st, env, f):
         if st.orelse:
             raise Unsupported("for/else")
+        if self.dict_building_loop(st, env, f):
+            return
         it = self.ev(st.iter, env, f)
         kind, coll = self.models.iter_of(self, it)
         if kind == "concrete":
